@@ -53,6 +53,10 @@ def run(ctx):
     ok_x = vlib.step_extract(ctx)
     ok_p = vlib.step_prove(ctx) if ok_x else False
     ts = audit_texts.all_texts(ctx.seed, ctx.tier)
+    rp = vlib.replay_case(ctx)
+    if rp is not None and "source_text" in rp:
+        ts = [(rp.get("name", "replay"), rp["source_text"])]
+        ctx.note("replay: the source text of " + ctx.replay)
     res = c16.run_audit([t for _, t in ts])
     ok = [(i, r) for i, r in enumerate(res) if r["outcome"] == "ok"]
     hist = collections.Counter()
